@@ -61,6 +61,7 @@ def sim_case(draw, tier="quick"):
             nr_ = len(spec["runners"])
             spec["market_type"] = mt = "ASIAN_HANDICAP"
             spec["bsp_market"] = False
+            spec["number_of_winners"] = 0
             spec["runners"] = [{"id": 1001 + (i % 2), "hc": [-0.5, 0.5, -1.5, 1.5][i], "af": None} for i in range(nr_)]
         if mt == "EACH_WAY":
             spec["each_way_divisor"] = draw(st.sampled_from([3, 4, 5]))
@@ -212,7 +213,7 @@ def _eval_sim(sc, lb):
             winners = sum(1 for x in final.runner_status if x == "WINNER")
             sel_ids = [(r["id"], r.get("hc", 0)) for r in spec["runners"]]
             for o in market.blotter:
-                exp_dh = winners if winners > spec["number_of_winners"] else None
+                exp_dh = winners if (winners > spec["number_of_winners"] and spec["number_of_winners"] > 0) else None
                 if o.runner_status != final.runner_status[sel_ids.index((o.selection_id, o.handicap))] or o.market_type != spec["market_type"] \
                         or o.each_way_divisor != spec.get("each_way_divisor") or (exp_dh and o.number_of_dead_heat_winners != exp_dh):
                     raise Violation("order-settlement-terms", (), "order terms (%s, %s, %s, %s) vs closing book (%s, %s, %s, %s)" % (
